@@ -274,6 +274,14 @@ class Formatter(FormatterInterface):
         if oper.rhs.precedence >= oper.precedence:
             rhs = f"({rhs})"
 
+        if (
+            isinstance(oper, L.Div)
+            and oper.lhs.dtype == L.DataType.INT
+            and oper.rhs.dtype == L.DataType.INT
+        ):
+            # Division is true division: C would truncate the quotient of two integers
+            lhs = f"({dtype_to_c_type(self.real_type)}){lhs}"
+
         # Return combined string
         return f"{lhs} {oper.op} {rhs}"
 
